@@ -23,8 +23,9 @@ def run(tier):
         jobs = [J("rt_types_enc1", 60, 3, "one path = one type shape"), J("rt_inferred_tiny", 60, 3, "one path = pair of value shapes x k class x rewriter on/off"),
                 J("rt_trace", 200, 4, "one path = function x bound arguments x arg/return/yield slots")]
     else:
-        jobs = [J("rt_types_enc1", 60, 3, "one path = one type shape"), J("rt_types_enc2", 2400, 4, "one path = one type shape (depth 2)"),
-                J("rt_inferred_small", 1800, 3, "pairs of value shapes x k class x rewriter on/off"),
-                J("rt_inferred_quick", 2400, 3, "pairs of value shapes x k class x rewriter on/off"),
-                J("rt_trace", 600, 4, "function x bound arguments x slots")]
+        jobs = [J("rt_types_enc1", 60, 3, "one path = one type shape"), J("rt_inferred_tiny", 60, 3, "pairs of value shapes x k class x rewriter on/off"),
+                J("rt_types_enc2", 400, 4, "one path = one type shape (depth 2)"),
+                J("rt_inferred_small", 400, 3, "pairs of value shapes x k class x rewriter on/off"),
+                J("rt_inferred_quick", 400, 3, "pairs of value shapes x k class x rewriter on/off"),
+                J("rt_trace", 300, 4, "function x bound arguments x slots")]
     return run_check(PID, tier, jobs, H.FUNCTIONS, ASSUMPTIONS)
